@@ -378,8 +378,22 @@ func (e *kvElection) attemptAcquire() error {
 	)
 
 	e.recordAcquireAttempt("success")
+	e.endSupersededTerm()
 	e.becomeLeader(token, rev)
 	return nil
+}
+
+// endSupersededTerm handles an acquisition that succeeds while the instance
+// still reports leadership of an earlier term: its previous record must have
+// lapsed or been removed (refreshes failing, outside deletion) and an
+// acquisition that was already in flight has just written a new record with a
+// new token. That is a new term: the old one is ended first (OnDemote, term
+// context cancelled) so that callbacks keep alternating and the token stays
+// constant within a term.
+func (e *kvElection) endSupersededTerm() {
+	if e.IsLeader() && e.becomeFollower() {
+		e.notifyDemoted("superseded_by_own_reacquisition")
+	}
 }
 
 func (e *kvElection) becomeLeader(token string, rev uint64) {
@@ -536,8 +550,7 @@ func (e *kvElection) attemptPriorityTakeover(payloadBytes []byte) error {
 		return fmt.Errorf("failed to unmarshal payload after takeover: %w", err)
 	}
 
-	e.revision.Store(newRev)
-	e.token.Store(newPayloadStruct.Token)
+	e.endSupersededTerm()
 	e.becomeLeader(newPayloadStruct.Token, newRev)
 	return nil
 }
